@@ -125,6 +125,117 @@ fn v(ctx: &Ctx, sig: &str, detail: String, workload: &str, step: usize, ops: &[O
     })
 }
 
+/// The capacity / clone / clear laws of C13 for one payload TYPE (zero-sized, byte-sized, large, owning):
+/// nothing in the property depends on what the payload is.
+fn c13_type_laws<T: Clone + PartialEq>(name: &str, mk: &dyn Fn(u64) -> T, n: usize, k: usize) -> Result<u64, (String, String)> {
+    let r = guarded(|| -> Result<u64, (String, String)> {
+        let mut obs = 0u64;
+        let bad = |sig: &str, d: String| Err((format!("payload-type/{}", sig), format!("Arena<{}>: {}", name, d)));
+        let mut w: Arena<T> = Arena::with_capacity(n);
+        if w.capacity() < n {
+            return bad("with_capacity", format!("with_capacity({}).capacity() = {}", n, w.capacity()));
+        }
+        let fresh: Arena<T> = Arena::new();
+        if w != fresh || !w.is_empty() || w.count() != 0 {
+            return bad("with_capacity-observable", format!("with_capacity({}) is not equal to a new arena", n));
+        }
+        let mut f: Arena<T> = Arena::new();
+        let mut ids: Vec<indextree::NodeId> = Vec::new();
+        for i in 0..n.min(40) {
+            let (x, y) = (w.new_node(mk(i as u64)), f.new_node(mk(i as u64)));
+            if x != y {
+                return bad("replay-id-differs", format!("node #{} got {:?} in a with_capacity({}) arena and {:?} in a new one", i, x, n, y));
+            }
+            if i > 0 {
+                ids[i / 2].append(x, &mut w);
+                ids[i / 2].append(y, &mut f);
+            }
+            ids.push(x);
+        }
+        if w != f {
+            return bad("replay-arena-differs", format!("the same calls on new() and with_capacity({}) give unequal arenas", n));
+        }
+        if w.capacity() < n {
+            return bad("capacity-guarantee-lost", format!("capacity() fell to {} below the {} asked of with_capacity", w.capacity(), n));
+        }
+        obs += 4;
+        let before = w.clone();
+        if before != w {
+            return bad("clone-not-equal", "a clone does not compare equal to its original".into());
+        }
+        w.reserve(k);
+        if w.capacity() < w.count() + k {
+            return bad("reserve-room", format!("after reserve({}) capacity() = {} < count() {} + {}", k, w.capacity(), w.count(), k));
+        }
+        if w != before {
+            return bad("reserve-observable", format!("reserve({}) changed the observable arena", k));
+        }
+        f.reserve(k);
+        if f.capacity() < f.count() + k {
+            return bad("reserve-room", format!("after reserve({}) on an arena made by new(): capacity() = {} < count() {} + {}", k, f.capacity(), f.count(), k));
+        }
+        let mut e: Arena<T> = Arena::new();
+        e.reserve(k);
+        if e.capacity() < k || e != fresh {
+            return bad("reserve-room", format!("reserve({}) on an empty arena: capacity() = {}", k, e.capacity()));
+        }
+        obs += 4;
+        if !ids.is_empty() {
+            let victim = ids[ids.len() / 2];
+            victim.remove(&mut w);
+            if w == before {
+                return bad("equality-too-coarse", "removing a node left the arena equal to its earlier clone".into());
+            }
+        }
+        let cap = w.capacity();
+        w.clear();
+        if w.capacity() != cap || !w.is_empty() || w != fresh {
+            return bad("clear-capacity", format!("clear(): capacity() {} -> {}, is_empty() = {}, equal to new: {}", cap, w.capacity(), w.is_empty(), w == fresh));
+        }
+        let mut g: Arena<T> = Arena::new();
+        for i in 0..5u64 {
+            if w.new_node(mk(i)) != g.new_node(mk(i)) {
+                return bad("clear-then-ids-differ", "after clear() new nodes get other ids than in a new arena".into());
+            }
+        }
+        if w != g || w.capacity() < cap {
+            return bad("clear-then-differs", "after clear() the same calls give another arena than on a new one (or the capacity was given up)".into());
+        }
+        obs += 4;
+        Ok(obs)
+    });
+    match r {
+        Ok(x) => x,
+        Err(p) => Err(("payload-type/panic".into(), format!("Arena<{}>: a call panicked: {}", name, p))),
+    }
+}
+
+#[derive(Clone, PartialEq)]
+struct UnitPayload;
+
+fn c13_payload_types(rng: &mut Rng, cov: &mut Cov) -> Result<(), (String, String)> {
+    let n = [0usize, 1, 3, 10, 100, 1000][rng.below(6)] + rng.below(4);
+    let k = [1usize, 2, 16, 100, 5000][rng.below(5)] + rng.below(7);
+    let mut obs = 0;
+    obs += c13_type_laws::<()>("()", &|_| (), n, k)?;
+    obs += c13_type_laws::<UnitPayload>("a unit struct", &|_| UnitPayload, n, k)?;
+    obs += c13_type_laws::<std::marker::PhantomData<u64>>("PhantomData<u64>", &|_| std::marker::PhantomData, n, k)?;
+    obs += c13_type_laws::<[u32; 0]>("[u32; 0]", &|_| [], n, k)?;
+    obs += c13_type_laws::<((), UnitPayload)>("((), unit struct)", &|_| ((), UnitPayload), n, k)?;
+    obs += c13_type_laws::<u8>("u8", &|i| i as u8, n, k)?;
+    obs += c13_type_laws::<bool>("bool", &|i| i % 2 == 0, n, k)?;
+    obs += c13_type_laws::<u128>("u128", &|i| i as u128 * 3, n, k)?;
+    obs += c13_type_laws::<[u64; 24]>("[u64; 24]", &|i| [i; 24], n, k)?;
+    obs += c13_type_laws::<String>("String", &|i| format!("s{}", i), n, k)?;
+    obs += c13_type_laws::<Box<u16>>("Box<u16>", &|i| Box::new(i as u16), n, k)?;
+    obs += c13_type_laws::<Option<Box<u8>>>("Option<Box<u8>>", &|i| if i % 3 == 0 { None } else { Some(Box::new(i as u8)) }, n, k)?;
+    obs += c13_type_laws::<Vec<()>>("Vec<()>", &|i| vec![(); i as usize % 5], n, k)?;
+    cov.observations += obs;
+    cov.add("payload_types_put_through_the_capacity_clone_clear_laws", 13);
+    cov.bump("payload_type_batteries");
+    Ok(())
+}
+
 /// tid that `State::step` will use / used for this op
 fn tid_of<P: Payload>(info: &StepInfo<P>) -> u64 {
     if op_makes_payload(&info.op) {
@@ -150,6 +261,11 @@ pub fn run_c13(ctx: &Ctx, index: u64, cov: &mut Cov) -> Option<Violation> {
         let mut c = ctx.beacon.current.lock().unwrap();
         c.0 = workload.clone();
         c.1.clear();
+    }
+    if index % 61 == 17 {
+        if let Err((sig, d)) = c13_payload_types(&mut rng, cov) {
+            return v(ctx, &sig, d, &workload, 0, &[]);
+        }
     }
     // mostly small; now and then a request that is large in bytes
     let worn: u32 = if index % 23 == 7 { [126u32, 254, 16_382, 32_760][rng.below(4)] + rng.below(8) as u32 } else { 0 };
@@ -656,6 +772,41 @@ impl BatteryHook {
 }
 
 impl BatteryHook {
+    /// What ids that are no longer current (removed nodes, recycled slots) give: every lookup and every walk
+    /// started from them, as a value or as "panicked" - whatever it is, it is the same in every build.
+    #[allow(deprecated)]
+    fn observe_stale<P: Payload + std::fmt::Display>(&mut self, st: &mut State<P>) {
+        let m = &st.model;
+        let stale: Vec<indextree::NodeId> = (0..m.nodes.len()).rev().filter(|h| !m.is_live(*h)).take(12).map(|h| m.nodes[h].id).collect();
+        let bound = 2 * st.arena.count() + 3;
+        for id in stale {
+            let a = &st.arena;
+            let d = &mut self.d;
+            d.u(usize::from(id) as u64);
+            d.u(guarded(|| id.is_removed(a)).map_or(7, |b| b as u64));
+            d.u(guarded(|| a.get(id).map(|n| n.is_removed())).map_or(7, |o| o.map_or(2, |b| b as u64)));
+            d.u(guarded(|| a.get(id).and_then(|n| a.get_node_id(n)).map(|x| x == id)).map_or(7, |o| o.map_or(2, |b| b as u64)));
+            macro_rules! walk {
+                ($e:expr) => {
+                    d.u(guarded(|| $e.take(bound).map(|x| usize::from(x) as u64).fold(0u64, |s, x| s.wrapping_mul(31).wrapping_add(x))).unwrap_or(u64::MAX))
+                };
+            }
+            walk!(id.ancestors(a));
+            walk!(id.predecessors(a));
+            walk!(id.preceding_siblings(a));
+            walk!(id.following_siblings(a));
+            walk!(id.following_siblings(a).rev());
+            walk!(id.children(a));
+            walk!(id.reverse_children(a));
+            walk!(id.descendants(a));
+            d.u(guarded(|| id.traverse(a).take(bound).count()).map_or(u64::MAX, |c| c as u64));
+            d.u(guarded(|| format!("{}", id.debug_pretty_print(a)).len()).map_or(u64::MAX, |c| c as u64));
+            let am = &mut st.arena;
+            self.d.u(guarded(|| am.get_mut(id).map(|n| n.is_removed())).map_or(7, |o| o.map_or(2, |b| b as u64)));
+            self.observations += 15;
+        }
+    }
+
     /// observations that are the same in every correct build: does an unsatisfiable reserve return?
     fn observe_end<P: Payload>(&mut self, st: &State<P>) {
         for k in [usize::MAX, usize::MAX / 2, (isize::MAX as usize) / 8] {
@@ -688,6 +839,9 @@ impl<P: Payload + std::fmt::Display + Sync> Hook<P> for BatteryHook {
             Ok(Ok(())) => {}
             Ok(Err(e)) => out.push(Finding::new(&["C17"], "battery/observation-failed".into(), e)),
             Err(p) => out.push(Finding::new(&["C17"], "battery/panic".into(), p)),
+        }
+        if !info.diverged {
+            self.observe_stale(st);
         }
         cov.evaluations += 1;
         cov.observations += self.observations - before;
